@@ -30,7 +30,8 @@ META = dict(
                'adsg_core.graph.adsg.DSG.set_des_var_value'],
     bounds=dict(closed_form='2-4 choices, index entries any integer >= -1 (unbounded above), 1-2 rows',
                 sequential='2-3 choices, 2-4 options, every order and option sequence', linked_dv='2-3 variables'),
-    outside=['that whole graphs with constraints across hierarchy levels offer exactly these architectures under both '
+    outside=['DSG-level placements other than flat, hier, hier_rev, mutex, mid_cond, first_cond(_or), last_cond, two_groups(_late,_rev: canonical order only), base_after_copy, shared_opts',
+             'that whole graphs with constraints across hierarchy levels offer exactly these architectures under both '
              'selection-choice encoders is a graph-structure quantifier: decided only on the placement templates (flat, '
              'hierarchical in both id orders, mutually exclusive, conditional middle choice), at the DSG level with symbolic '
              'histories and, as an AUXILIARY concrete check (encoder_level), through GraphProcessor with both encoders',
